@@ -14,6 +14,7 @@
 package io
 
 import (
+	"reflect"
 	"strings"
 	"unicode/utf8"
 )
@@ -28,14 +29,34 @@ func (valenc errorEncoder) Encode(enc *Encoder, v interface{}) {
 func (errorEncoder) Write(enc *Encoder, v interface{}) {
 	switch v := v.(type) {
 	case error:
+		if rv := reflect.ValueOf(v); rv.Kind() == reflect.Ptr && rv.IsNil() {
+			enc.WriteNil() // a typed nil pointer: its Error method would dereference it
+			return
+		}
 		enc.WriteError(v)
 	case *error:
+		if v == nil || *v == nil {
+			enc.WriteNil()
+			return
+		}
 		enc.WriteError(*v)
+	default:
+		// a nil error (a struct field, a list element): it is a value like any other and
+		// takes its place in the stream as null
+		enc.WriteNil()
 	}
 }
 
 // WriteError to encoder.
 func (enc *Encoder) WriteError(e error) {
+	if e == nil {
+		enc.WriteNil()
+		return
+	}
+	if rv := reflect.ValueOf(e); rv.Kind() == reflect.Ptr && rv.IsNil() {
+		enc.WriteNil() // a typed nil pointer: its Error method would dereference it
+		return
+	}
 	enc.AddReferenceCount(1)
 	s := e.Error()
 	if !utf8.ValidString(s) {
